@@ -1055,6 +1055,82 @@ func runC13(w *World, r *Report) {
 		r.check(verdict != "newest-first", "retry-order", "buffer.getNext/comparator", w.Pos(gn.fn.Pos()), "parked vertices are retried in arrival order or oldest first", why)
 	}
 
+	r.rule("popped-is-published", "buffer.run publishes every parked vertex it pops: from getNext() every path to the next tick sends that value on the subscription channel, except when the buffer was empty", 1)
+	if br := w.fx(r, "accountant", "buffer", "run"); br != nil {
+		pops := callsTo(br.fn, cn("accountant", "*buffer", "getNext"))
+		if len(pops) == 0 {
+			r.bad("popped-is-published", "buffer.run/getNext", w.Pos(br.fn.Pos()), "the ticker loop pops parked vertices with getNext", "no such call")
+		}
+		for _, pc := range pops {
+			pv := callValue(pc)
+			empty := edgesWhere(br.fn, func(ft fact) bool {
+				if ft.kind != fIsNil {
+					return false
+				}
+				// v.vrx == nil where v is the popped value (field read of the call result)
+				switch x := strip(ft.x).(type) {
+				case *ssa.Field:
+					return sameVal(x.X, pv)
+				case *ssa.UnOp:
+					if fa, ok := x.X.(*ssa.FieldAddr); ok {
+						for _, o := range origins(fa.X) {
+							if sameVal(o, pv) {
+								return true
+							}
+						}
+						if al, ok := fa.X.(*ssa.Alloc); ok {
+							for _, ref := range *al.Referrers() {
+								if st, ok := ref.(*ssa.Store); ok && st.Addr == ssa.Value(al) && sameVal(st.Val, pv) {
+									return true
+								}
+							}
+						}
+						return pathOf(fa.X) == pathOf(pv)
+					}
+				}
+				return false
+			})
+			isPublish := passesDeep(br.fn, idRes, func(in ssa.Instruction, _ resolver) bool {
+				switch x := in.(type) {
+				case *ssa.Send:
+					return strings.HasSuffix(pathOf(x.Chan), ".pub")
+				case *ssa.Select:
+					for _, st := range x.States {
+						if st.Dir == types.SendOnly && strings.HasSuffix(pathOf(st.Chan), ".pub") {
+							return true
+						}
+					}
+				}
+				return false
+			}, 1)
+			dropped := 0
+			walkFrom(pc.(ssa.Instruction), nil, edgeSet(empty), func(in ssa.Instruction) bool {
+				if isPublish(in) {
+					return true
+				}
+				switch x := in.(type) {
+				case *ssa.Select:
+					for _, st := range x.States {
+						if st.Dir == types.RecvOnly {
+							dropped++ // back at the tick without having published
+							return true
+						}
+					}
+				case *ssa.Return:
+					dropped++
+					return true
+				case ssa.CallInstruction:
+					if x == pc {
+						dropped++
+						return true
+					}
+				}
+				return false
+			})
+			r.check(len(empty) > 0 && dropped == 0, "popped-is-published", "buffer.run/publish", lineOf(w, pc), "a popped vertex is always handed to the subscriber (only an empty pop is skipped)", fmt.Sprintf("%d ways from getNext() to the next tick without publishing; empty-pop edges=%d", dropped, len(empty)))
+		}
+	}
+
 	r.rule("retry-reenters-admission", "the retry loop hands every parked vertex to addLeafMemorized and nothing else inserts into the DAG (closure facts of C10)", 2)
 	if rl := w.fx(r, "accountant", "AccountingBook", "runLeafSubscriber"); rl != nil {
 		cs := rl.calls(cn("accountant", "*AccountingBook", "addLeafMemorized"))
